@@ -152,10 +152,11 @@ func Go(f func()) {
 	}()
 }
 
-// Send replaces `ch <- v`. Outside an execution it is a plain send. Inside an
+// SendSpawned replaces `ch <- v` lexically inside a `go func(){..}` literal
+// (iterator goroutines). Outside an execution it is a plain send. Inside an
 // execution a send that is still blocked when the execution ends makes the
 // goroutine exit (the consumer abandoned the iteration).
-func Send[T any](ch chan<- T, v T) {
+func SendSpawned[T any](ch chan<- T, v T) {
 	p := epoch.Load()
 	if p == nil {
 		ch <- v
@@ -165,6 +166,17 @@ func Send[T any](ch chan<- T, v T) {
 	case ch <- v:
 	case <-*p:
 		runtime.Goexit()
+	}
+}
+
+// Send replaces `ch <- v` on the simulator's own goroutine. Nothing else can
+// receive while that goroutine is blocked, so a send that would block is a
+// deadlock: it is reported instead of hanging the process.
+func Send[T any](ch chan<- T, v T) {
+	select {
+	case ch <- v:
+	default:
+		panic(Abort{"deadlock", Ticks, Cycles})
 	}
 }
 
